@@ -156,6 +156,25 @@ def test_values_and_alphabets():
     assert M.counterpart('complex64', 'real') == np.dtype('float32')
     assert M.counterpart('float64', 'complex') == np.dtype('complex128')
     assert M.counterpart('int64', 'complex') is None
+    assert M.counterpart('float16', 'complex') == np.dtype('complex64')
+    assert M.counterpart('float16', 'real') == np.dtype('float16')
+
+
+def test_tiny_perturbations_are_different_objects():
+    k = M.keys
+    base = ('Grid', (0, 1, 2, 3, 4))
+    assert k(base)[0] == k(('UGrid', 0, 4, 5))[0]
+    assert k(base)[1] != k(('Grid', (0.0, 1.000001, 2.0, 3.0, 4.0)))[1]     # interior node
+    assert k(base)[1] != k(('Grid', (0.0, 1.0, 2.0, 3.0, 4.000000001)))[1]   # end point
+    assert M._perturb((0, 1, 2), 1, 1e-6) == (0.0, 1.000001, 2.0)
+    p = ('UPart', -0.5, 4.5, 5, False)
+    assert k(p)[0] == k(('Part', ('IP', -0.5, 4.5), base))[0]
+    assert k(p)[1] != k(('Part', ('IP', -0.5, 4.5), ('Grid', (0.0, 1.0, 2.000001, 3.0, 4.0))))[1]
+    assert k(p)[1] != k(('Part', ('IP', -0.5, 4.500001), base))[1]
+    assert k(('W', 'ConstT', 2.0, 2.0))[1] != k(('W', 'ConstT', 2.000000001, 2.0))[1]
+    assert k(('W', 'ConstT', 2.0, 2.0))[1] != k(('W', 'ConstT', 2.0, 2.000000001))[1]
+    names = [M.name(r) for r in M.universe('quick')]
+    assert 'Grid([0.0,1.000001,2.0,3.0,4.0])' in names and 'TS(2,float16,None,None,2.0)' in names
     assert M.field_of_dtype('int32') == 'Real' and M.field_of_dtype('<U2') is None
 
 
